@@ -68,7 +68,7 @@ theorem for_step (ih : NHAll ld fuel) :
   refine NoHost.ofFun (fun s0 => ?_)
   have hb := (ih.evalFor env ids e body what pos).nh s0
   cases hr : evalFor ld fuel env ids e body what pos s0 with
-  | ok a s => rw [hr] at hb; exact hb
+  | ok a s => exact Out.NH_ok _ _
   | err => exact Out.NH_err _ _ _ _ _
   | fail f s => rw [hr] at hb; exact hb
 
